@@ -57,7 +57,8 @@ def _float_to_str_summary():
         r = F2S(ft, z3.IntVal(int(d)))
         tol = z3.Q(1, 10 ** int(d))
         ctx.solver.add(r - ft < tol, ft - r < tol)
-        # outside the exponent-notation range the text is a truncation of str(f): same sign, magnitude not larger
+        # outside the exponent-notation range the text is a truncation of str(f): same sign, magnitude not larger -- for the NUMBER THE
+        # READER OBTAINS, float(text): text <= dec(str(f)) and float(dec(str(f))) == f, float() is monotone
         small = z3.Q(1, 10000)
         ctx.solver.add(z3.Implies(ft >= small, z3.And(r >= 0, r <= ft)), z3.Implies(ft <= -small, z3.And(r <= 0, r >= ft)))
         seen = ctx.options.setdefault("__f2s__", [])
@@ -146,8 +147,11 @@ def mk_network(F):
     light = F.new(TrafficLight, 201, pos(F, "light_p"), cyc, direction=TrafficLightDirection.LEFT_STRAIGHT, active=True)
     F.method(net, "add_traffic_sign", sign, set())
     F.method(net, "add_traffic_light", light, set())
+    # one incoming per successor kind alone (straight only / left only / right only): a guard copied from a neighbouring block shows
     inc = F.new(IntersectionIncomingElement, 302, {1}, set(), {2}, set(), None)
-    F.method(net, "add_intersection", F.new(Intersection, 301, [inc], {3}))
+    inc_l = F.new(IntersectionIncomingElement, 303, {2}, set(), set(), {3}, 302)
+    inc_r = F.new(IntersectionIncomingElement, 304, {3}, {1}, set(), set(), None)
+    F.method(net, "add_intersection", F.new(Intersection, 301, [inc, inc_l, inc_r], {3}))
     return net
 
 
@@ -198,10 +202,10 @@ def _unused(F):
     return [static, dyn, dyn2, ph, env]
 
 
-def mk_scenario(F, content=("network", "static", "dynamic", "setbased", "phantom", "environment")):
+def mk_scenario(F, content=("network", "static", "dynamic", "setbased", "phantom", "environment"), weather=Weather.HEAVY_RAIN):
     loc = F.new(Location, 2867714, F.real("lat"), F.real("lon"), F.new(GeoTransformation, "+proj=utm", F.real("gx"), F.real("gy"), F.real("gz"), positive(F, "gs")),
-                F.new(Environment, Time(12, 15), TimeOfDay.NIGHT, Weather.HEAVY_RAIN, Underground.WET))
-    sc = F.new(Scenario, positive(F, "dt"), F.new(ScenarioID, False, "DEU", "Muc", 2, 1, "T", 1), "author", {Tag.URBAN, Tag.INTERSECTION}, "affiliation", "source", loc)
+                F.new(Environment, Time(12, 15), TimeOfDay.NIGHT, weather, Underground.WET))
+    sc = F.new(Scenario, positive(F, "dt"), F.new(ScenarioID, False, "DEU", "Muc", 2, 1, "T", [3, 1]), "author", {Tag.URBAN, Tag.INTERSECTION}, "affiliation", "source", loc)
     objs = []
     if "network" in content:
         objs.append(mk_network(F))
@@ -246,6 +250,10 @@ for _d, _cname in [(d, c) for d in PRECISIONS for c in CONTENTS]:
 
         def invoke(self, F, inp):
             path = "/nonexistent-dir/verif_c01_%d_%d.xml" % (self.d, len(self.content))
+            if F.native:
+                from pyvc.contract import scratch_dir
+
+                path = os.path.join(scratch_dir("c01_"), "out.xml")
             w = F.new(CommonRoadFileWriter, inp["sc"], inp["pps"], decimal_precision=self.d, file_format=FileFormat.XML)
             F.method(w, "write_to_file", path, OverwriteExistingFile.ALWAYS)
             r = F.new(CommonRoadFileReader, path)
